@@ -110,6 +110,9 @@ def classTable : List ClassRow := [rowNifti1Pair, rowNifti1Image, rowNifti2Pair,
 /-- `ImageOpener.compress_ext_map` without the `None` entry, dict order; codec 1 gzip, 2 bz2, 3 zstd -/
 def openerKeys : List (Str × Nat) := [([46, 103, 122] /- '.gz' -/, 1), ([46, 98, 122, 50] /- '.bz2' -/, 2), ([46, 122, 115, 116] /- '.zst' -/, 3), ([46, 109, 103, 122] /- '.mgz' -/, 1)]
 
+/-- `Opener.compress_ext_map` of the BASE class (used by streamlines, freesurfer.io, user code) -/
+def baseOpenerKeys : List (Str × Nat) := [([46, 103, 122] /- '.gz' -/, 1), ([46, 98, 122, 50] /- '.bz2' -/, 2), ([46, 122, 115, 116] /- '.zst' -/, 3)]
+
 def compressExtIcase : Bool := true
 
 /-- `loadsave._compressed_suffixes` -/
